@@ -13,7 +13,17 @@ CHECK_DEADLOCK FALSE
 
 def plans(cases, run):
     n, per = {"quick": (400, 40), "thorough": (6000, 60)}[run.tier]
-    return [("mc", {"cfgs": cases, "pool": run.pool, "random": 0, "shuffle": True, "_seed": run.seed * 1000 + 1}, None, False),
+    # beyond the MC pool: a plain handler registered with HandleWithFilter before the filter was installed, and
+    # requested headers spread over two field lines
+    extra = []
+    for origin in ("http://a.com", "https://shop.example.com", "http://evil.test"):
+        extra.append({"m": "GET", "origin": origin, "acrm": "", "acrh": "", "acrh2": "", "url": "/plain/x"})
+        extra.append({"m": "OPTIONS", "origin": origin, "acrm": "GET", "acrh": "", "acrh2": "", "url": "/plain/x"})
+        extra.append({"m": "OPTIONS", "origin": origin, "acrm": "GET", "acrh": "X-A", "acrh2": "X-Secret", "url": "/u1"})
+        extra.append({"m": "OPTIONS", "origin": origin, "acrm": "GET", "acrh": "X-A", "acrh2": "x-a, X-B", "url": "/u2"})
+    for rq in run.pool:
+        rq.setdefault("acrh2", "")
+    return [("mc", {"cfgs": cases, "pool": run.pool + extra, "random": 0, "shuffle": True, "_seed": run.seed * 1000 + 1}, None, False),
             ("rnd", {"cfgs": [], "pool": [], "random": n, "reqsPer": per, "conc": {"quick": 400, "thorough": 5000}[run.tier],
                      "_seed": run.seed * 1000 + 2}, None, False)]
 
